@@ -78,7 +78,7 @@ def generic_decoder_checks(ck, P, it, env, dec, fn, tag, H, crc, ind=True):
 
 
 def check_fields(ck, it, env, dec, fn, tag, fields, prefix=""):
-    simp = lambda v: D.simplify(D.simplify(v, env.facts), env.facts)
+    _sc = {}; simp = lambda v: D.simplify(D.simplify(v, env.facts, _sc), env.facts, _sc)
     for path, kind, a, b in fields:
         try:
             v = simp(read_path(it, env, dec, prefix + path))
